@@ -3,14 +3,14 @@ From V Require Import Export.Prom Proofs.BucketsProofs.
 Local Open Scope N_scope.
 
 Section P.
-Context {F : Type} (of_int : Z -> F) (fzero : F).
+Context {F : Type} (O : fops F) (of_int : Z -> F) (fzero : F).
 Notation metric := (metric F).
 Notation labelset := (labelset F).
 Notation sample := (sample F).
-Notation collect := (collect of_int fzero).
-Notation collect_group := (collect_group of_int fzero).
-Notation collect_metric := (collect_metric of_int fzero).
-Notation sample_of := (sample_of of_int fzero).
+Notation collect := (collect O of_int fzero).
+Notation collect_group := (collect_group O of_int fzero).
+Notation collect_metric := (collect_metric O of_int fzero).
+Notation sample_of := (sample_of O of_int fzero).
 
 (* where a sample comes from *)
 Definition origin (c : cfg) (s : list (list metric)) (x : sample) (g : list metric) (m : metric) (ls : labelset) : Prop :=
@@ -156,8 +156,8 @@ Proof.
 Qed.
 
 Theorem cum_monotone (d : @bdatum F) i a b :
-  nth_error (map snd (cum_by_max d)) i = Some a ->
-  nth_error (map snd (cum_by_max d)) (S i) = Some b -> a <= b.
+  nth_error (map snd (cum_by_max O d)) i = Some a ->
+  nth_error (map snd (cum_by_max O d)) (S i) = Some b -> a <= b.
 Proof. apply cum_from_monotone. Qed.
 
 Lemma cum_from_fst acc (bs : list (@range F * N)) :
@@ -180,44 +180,130 @@ Proof.
     + destruct b. discriminate.
 Qed.
 
-Theorem cum_bounds (d : @bdatum F) : map fst (cum_by_max d) = bounds d.
-Proof. apply cum_from_fst. Qed.
+(* sorting keeps the buckets (a permutation): same total, same members *)
+Lemma sumN_insert x (l : list (@range F * N)) :
+  sumN (map snd (insert_bucket O x l)) = snd x + sumN (map snd l).
+Proof.
+  induction l as [|y l IH]; [reflexivity|]. cbn [insert_bucket].
+  destruct (f_leb O (r_max (fst x)) (r_max (fst y))); cbn [map sumN]; [reflexivity|]. rewrite IH. lia.
+Qed.
+Lemma sumN_sort (l : list (@range F * N)) : sumN (map snd (sort_buckets O l)) = sumN (map snd l).
+Proof.
+  induction l as [|x l IH]; [reflexivity|]. cbn [sort_buckets fold_right].
+  fold (sort_buckets O l). rewrite sumN_insert, IH. reflexivity.
+Qed.
+Lemma insert_nonempty x (l : list (@range F * N)) : insert_bucket O x l <> [].
+Proof. destruct l; cbn; [discriminate|]. destruct (f_leb O _ _); discriminate. Qed.
+Lemma sort_nonempty (l : list (@range F * N)) : l <> [] -> sort_buckets O l <> [].
+Proof. destruct l; [congruence|]. intros _. cbn [sort_buckets fold_right]. apply insert_nonempty. Qed.
+Lemma in_insert_bucket x y (l : list (@range F * N)) : In y (insert_bucket O x l) <-> y = x \/ In y l.
+Proof.
+  induction l as [|z l IH]; cbn [insert_bucket]; [cbn; intuition congruence|].
+  destruct (f_leb O _ _); cbn [In]; [intuition congruence|]. rewrite IH. cbn. intuition congruence.
+Qed.
+Theorem in_sort_buckets y (l : list (@range F * N)) : In y (sort_buckets O l) <-> In y l.
+Proof.
+  induction l as [|x l IH]; [reflexivity|]. cbn [sort_buckets fold_right]. fold (sort_buckets O l).
+  rewrite in_insert_bucket, IH. cbn. intuition congruence.
+Qed.
 
-Theorem inf_bucket_is_count (O : fops F) rs vs dflt :
+(* the result is ordered by upper bound: each bound is <= the next one,
+   provided <= is total on the bounds present (no NaN bound) and transitive *)
+Fixpoint adj_sorted (ms : list F) : Prop :=
+  match ms with
+  | x :: ((y :: _) as r) => f_leb O x y = true /\ adj_sorted r
+  | _ => True
+  end.
+
+Lemma adj_sorted_cons x l : adj_sorted l -> (forall y, hd_error l = Some y -> f_leb O x y = true) -> adj_sorted (x :: l).
+Proof. destruct l as [|y l]; [intros; exact I|]. intros S H. split; [apply H; reflexivity|exact S]. Qed.
+
+Lemma insert_sorted x (l : list (@range F * N)) :
+  (forall a b, f_leb O a b = false -> f_leb O b a = true) ->
+  adj_sorted (map (fun rc => r_max (fst rc)) l) ->
+  adj_sorted (map (fun rc => r_max (fst rc)) (insert_bucket O x l)).
+Proof.
+  intros Tot. induction l as [|y l IH]; intros S; [exact I|]. cbn [insert_bucket].
+  destruct (f_leb O (r_max (fst x)) (r_max (fst y))) eqn:E.
+  - cbn [map]. split; [exact E|exact S].
+  - cbn [map]. apply adj_sorted_cons.
+    + apply IH. destruct l as [|z l]; [exact I|]. exact (proj2 S).
+    + intros z Hz. destruct l as [|w l]; cbn [insert_bucket map hd_error] in Hz.
+      * injection Hz as <-. apply Tot. exact E.
+      * destruct (f_leb O (r_max (fst x)) (r_max (fst w))); cbn [map hd_error] in Hz; injection Hz as <-.
+        -- apply Tot. exact E.
+        -- exact (proj1 S).
+Qed.
+
+Theorem cum_by_max_sorted (d : @bdatum F) :
+  (forall a b, f_leb O a b = false -> f_leb O b a = true) ->
+  adj_sorted (map fst (cum_by_max O d)).
+Proof.
+  intros Tot. unfold cum_by_max. rewrite cum_from_fst.
+  induction (b_buckets d) as [|x l IH]; [exact I|]. cbn [sort_buckets fold_right]. fold (sort_buckets O l).
+  apply insert_sorted; assumption.
+Qed.
+
+(* an ascending slice is left as it is: the sort changes nothing for the
+   datums compiled programs create *)
+Lemma sort_sorted_id (l : list (@range F * N)) :
+  adj_sorted (map (fun rc => r_max (fst rc)) l) -> sort_buckets O l = l.
+Proof.
+  induction l as [|x l IH]; [reflexivity|]. intros S. cbn [sort_buckets fold_right]. fold (sort_buckets O l).
+  destruct l as [|y l']; [reflexivity|]. rewrite IH by exact (proj2 S).
+  cbn [insert_bucket]. cbn [map] in S. rewrite (proj1 S). reflexivity.
+Qed.
+
+Theorem cum_sorted_is_slice_order (d : @bdatum F) :
+  adj_sorted (bounds d) -> cum_by_max O d = cum_in_slice_order d.
+Proof. intros S. unfold cum_by_max, cum_in_slice_order. rewrite sort_sorted_id by exact S. reflexivity. Qed.
+
+(* every exported bucket is a bucket of the datum and conversely *)
+Theorem cum_bounds_perm (d : @bdatum F) x :
+  In x (map fst (cum_by_max O d)) <-> In x (bounds d).
+Proof.
+  unfold cum_by_max, bounds. rewrite cum_from_fst, !in_map_iff.
+  split; intros (rc & E & H); exists rc; (split; [exact E|]); apply in_sort_buckets; exact H.
+Qed.
+
+Theorem inf_bucket_is_count rs vs dflt :
   let d := observe_all O vs (make_buckets O rs) in
-  snd (last (cum_by_max d) dflt) = b_count d.
+  snd (last (cum_by_max O d) dflt) = b_count d.
 Proof.
   cbn zeta. destruct (counts_sum_to_count O rs vs) as (S & _).
   destruct (make_buckets_fresh O rs) as (Hne & _).
   destruct (observe_all_inv O vs _ Hne) as (Hne' & _).
-  unfold cum_by_max. rewrite cum_from_last by exact Hne'. rewrite <- S. reflexivity.
+  unfold cum_by_max. rewrite cum_from_last by (apply sort_nonempty; exact Hne').
+  rewrite sumN_sort. rewrite <- S. reflexivity.
 Qed.
 
 Lemma last_map {A B} (f : A -> B) l d : last (map f l) (f d) = f (last l d).
 Proof. induction l as [|x [|y l] IH]; try reflexivity. exact IH. Qed.
 
-Theorem inf_bucket_bound (O : fops F) bs rs vs dflt :
-  f_is_pinf O (f_inf O) = true -> make_ranges O bs = Some rs ->
+Theorem inf_bucket_bound bs rs vs dflt :
+  f_is_pinf O (f_inf O) = true -> make_ranges O bs = Some rs -> adj_sorted (map r_max rs) ->
   let d := observe_all O vs (make_buckets O rs) in
-  fst (last (cum_by_max d) dflt) = f_inf O.
+  fst (last (cum_by_max O d) dflt) = f_inf O.
 Proof.
-  intros Hinf H d.
-  rewrite <- (last_map fst). rewrite cum_bounds.
+  intros Hinf H Srt d.
   destruct (make_buckets_fresh O rs) as (Hne & _).
-  unfold d. rewrite (observe_all_keeps_ranges O vs _ Hne).
-  (* bounds (make_buckets rs) = map r_max rs, which ends in +Inf *)
   assert (E : exists pre, map r_max rs = pre ++ [f_inf O]).
   { destruct bs as [|b0 rest]; [discriminate|].
     destruct (f_ltb O (f_zero O) b0) eqn:L.
     - exists (b0 :: rest). exact (bounds_positive_first O _ _ b0 H eq_refl L).
     - exists rest. exact (bounds_nonpositive_first O _ _ b0 H eq_refl L). }
   destruct E as (pre & E).
-  unfold make_buckets. destruct (scan_ranges O rs false (f_zero O)) as [seen h] eqn:S.
-  assert (seen = true) as ->.
-  { change seen with (fst (seen, h)). rewrite <- S. apply scan_ranges_inf; [exact Hinf|].
-    rewrite E. apply in_or_app. right. left. reflexivity. }
-  unfold bounds; cbn [b_buckets]. rewrite map_map.
-  change (last (map (@r_max F) rs) (fst dflt) = f_inf O). rewrite E. apply last_last.
+  assert (B : bounds d = map r_max rs).
+  { unfold d. rewrite (observe_all_keeps_ranges O vs _ Hne).
+    unfold make_buckets. destruct (scan_ranges O rs false (f_zero O)) as [seen h] eqn:S.
+    assert (seen = true) as ->.
+    { change seen with (fst (seen, h)). rewrite <- S. apply scan_ranges_inf; [exact Hinf|].
+      rewrite E. apply in_or_app. right. left. reflexivity. }
+    unfold bounds; cbn [b_buckets]. rewrite map_map. reflexivity. }
+  rewrite cum_sorted_is_slice_order by (rewrite B; exact Srt).
+  rewrite <- (last_map fst). unfold cum_in_slice_order. rewrite cum_from_fst.
+  change (map (fun rc : range * N => r_max (fst rc)) (b_buckets d)) with (bounds d).
+  rewrite B, E. apply last_last.
 Qed.
 
 End P.
